@@ -85,7 +85,8 @@ fn img_skip(img: &[String]) -> &[String] {
 
 /// Match an OTLP AnyValue against (pool value, image).  Err = description of the difference.
 pub fn match_any(t: &Tables, cv: &CV, img: &[String], got: &NV, json_twin: bool) -> Result<(), String> {
-    let cv = cv.strip_some();
+    let cvn = cv.norm();
+    let cv = &*cvn;
     let bad = |want: String| Err(format!("want {want}, got {}", got.brief()));
     match img[0].as_str() {
         "absent" => if matches!(got, NV::Absent) { Ok(()) } else { bad("no value".into()) },
@@ -225,7 +226,8 @@ pub fn match_any(t: &Tables, cv: &CV, img: &[String], got: &NV, json_twin: bool)
 
 /// Match a member of a file JSON line against (pool value, image).
 pub fn match_json(t: &Tables, cv: &CV, img: &[String], got: &JV) -> Result<(), String> {
-    let cv = cv.strip_some();
+    let cvn = cv.norm();
+    let cv = &*cvn;
     let bad = |want: String| Err(format!("want {want}, got {}", got.brief()));
     match img[0].as_str() {
         "null" => if matches!(got, JV::Null) { Ok(()) } else { bad("null".into()) },
